@@ -508,11 +508,37 @@ def emitHandshake (cfg : Cfg) (k : Kernel) (fd : Nat) : Kernel :=
       let l := boundEndpoint s
       k.emit l t.peer (t.handshakeSeg l.port (synWindow cfg))
 
-/-- `check_retx` (tcp.rs:1118). -/
-def checkRetx (cfg : Cfg) (k : Kernel) : Kernel :=
+/-- `persist_probe`: one persist tick; every `retx_threshold` ticks the probe goes out. -/
+def persistProbe (cfg : Cfg) (k : Kernel) (fd : Nat) : Kernel :=
+  match k.getSock fd with
+  | none => k
+  | some s =>
+    match s.tcb with
+    | none => k
+    | some t =>
+      let l := boundEndpoint s
+      if mssFor cfg l.ip = 0 then k
+      else if t.persistTicks + 1 < cfg.retxThreshold then
+        k.setSock fd { s with tcb := some { t with persistTicks := t.persistTicks + 1 } }
+      else
+        (k.setSock fd { s with tcb := some t.probed }).emit l t.peer (t.probeSeg cfg.recvCap l.port)
+
+def persistCands (k : Kernel) : List Nat :=
+  k.sockets.filterMap fun e =>
+    match e.2.tcb with
+    | some t => if t.persistCandidate then some e.1 else none
+    | none => none
+
+/-- The retransmit part of `check_retx` (tcp.rs:1118): counters / rewind, handshake re-emission, aborts. -/
+def checkRetx0 (cfg : Cfg) (k : Kernel) : Kernel :=
   let r := (k.retxCands cfg).foldl (retxPass1Step cfg) (k, [], [])
   let k2 := r.2.1.foldl (emitHandshake cfg) r.1
   r.2.2.foldl (fun k fd => abortOrReap cfg k fd false) k2
+
+/-- `check_retx`: the retransmit sweep, then (repair `fixPersistProbe`) the persist sweep. -/
+def checkRetx (cfg : Cfg) (k : Kernel) : Kernel :=
+  let k3 := checkRetx0 cfg k
+  if cfg.fixPersistProbe then k3.persistCands.foldl (persistProbe cfg) k3 else k3
 
 /-- `segment_one` (tcp.rs:1249). -/
 def segmentOne (cfg : Cfg) (k : Kernel) (fd : Nat) : Kernel :=
